@@ -115,6 +115,18 @@ def agrees (s : St) (o : Obs) : Bool :=
 
 def countOf (o : Obs) (c : Nat) : Nat := (o.results.filter (·.1 == c)).length
 
+/-- the event is the read of a multi response in which some call's result is a server exception
+(`rd:<id>:pc-…<call>.connErr…`): a frame with `Frame.fatal` -/
+def serverExcMulti (a : String) : Option (List Nat) :=
+  match a.splitOn ":" with
+  | ["rd", _, f] =>
+    match parseFrame f with
+    | some (.perCall rs) => if (Frame.perCall rs).fatal then some (rs.map (·.1)) else none
+    | _ => none
+  | _ => none
+
+def isServerExcMulti (a : String) : Bool := (serverExcMulti a).isSome
+
 /-- Property monitors on the implementation's own observations. -/
 def monitors (model : String) (steps : List (String × Obs)) (cancelled : List Nat) (foreign : String)
     : Option String :=
@@ -135,6 +147,37 @@ def monitors (model : String) (steps : List (String × Obs)) (cancelled : List N
       -- follows on the stream can be attributed to a request any more)
       match steps.find? (fun (a, o) => a.startsWith "rd:" && (a.splitOn ":").getLast? == some "badhdr" && !o.done) with
       | some (a, _) => some s!"SPEC key=undecodable-frame-did-not-fail-the-connection event={a}"
+      | none =>
+      -- a multi response that carries a "server is not in service" exception (for a region or for
+      -- one action) fails the connection as soon as the reader has dealt with it (`Frame.fatal`).
+      -- The reader may be parked with the frame in its hand — waiting for inFlightM behind a sender
+      -- that is inside the arming SetReadDeadline, or inside its own clearing SetReadDeadline — and
+      -- in both cases a deadline operation is parked on the connection (a gate). So from the read of
+      -- such a frame on, the first observation with nothing parked and nobody blocked must show the
+      -- connection done (if the id was not registered, or the connection had failed before, it is
+      -- done anyway); and as soon as a call of that multi has its result (the reader has dealt with
+      -- the frame: delivery comes first, `fail` right after it) the connection is done, whatever
+      -- else is parked. Not a violation of C03 by itself, but a difference between the model and the
+      -- implementation — reported here as well, because the event-by-event replay below stops at
+      -- the first contended observation.
+      let rec fatalMulti (pending : Option (String × List Nat)) : List (String × Obs) → Option String
+        | [] => none
+        | (a, o) :: rest =>
+          let pending := match serverExcMulti a with
+            | some cs => some (a, cs)
+            | none => pending
+          if o.done then none
+          else match pending with
+            | some (ev, cs) =>
+              if o.gates = 0 && o.blocked = 0 && o.mutexWait = 0 then
+                some s!"DIFF server-exception-in-multi-did-not-fail-the-connection event={ev} settled-after={a} (model: Frame.fatal, failConn after the delivery)"
+              -- the calls of the multi have their results: the reader has dealt with the frame
+              else if cs.any (fun c => countOf o c > 0) then
+                some s!"DIFF server-exception-in-multi-did-not-fail-the-connection event={ev} delivered-after={a} (model: Frame.fatal, failConn after the delivery)"
+              else fatalMulti pending rest
+            | none => fatalMulti pending rest
+      match fatalMulti none steps with
+      | some v => some v
       | none =>
       -- at every quiescent observation of a failed connection: whatever was handed over so far and
       -- had not been cancelled by then has its result (a later cancellation does not excuse it)
@@ -274,6 +317,7 @@ def handle (model : String) : List String → String
             (if s.delivered.any (·.res == .ok) then "answered" else "unanswered"),
             (if s.wroteAs.any (fun p => s.wroteAs.any (fun p' => p'.2 == p.2 && p'.1 != p.1)) then "multi" else "nomulti"),
             (if s.dropped.isEmpty then "nodrop" else "ctxdrop"),
+            (if parsed.any (fun (a, _, _) => isServerExcMulti a) then "multiservexc" else "nomultiservexc"),
             (if k > 12 then "long" else "short")]
           "OK tags=" ++ ",".intercalate tags
         | (a, act, o) :: rest =>
